@@ -24,7 +24,9 @@ CONSTANTS
                \*   k = "value"  : [path |-> p]   ("-" = standard input); the token text is the path
   FormatNames, \* FormatNames[text] = format for valid -f/-t values; other texts are not in its domain
   Files,       \* Files[p] = [exists, dir, ext (format or "none"), content]
-  Lib,         \* Lib[<<content, sel, to>>] = [ok, frames]   sel: format or "detect"; frames: units of output
+  Lib,         \* Lib[<<content, sel, to, supply>>] = [ok, frames]   sel: format or "detect"; frames: units of output;
+               \* supply: "slice" (a file operand is memory-mapped) or "reader" (standard input, a FIFO)
+  ReaderFiles, \* operands that cannot be mapped and are read as streams
   StdinContent,
   ArgSet,      \* the argument vectors explored (sequences of token names)
   StdoutKinds  \* subset of {"pipe", "file", "tty", "full", "closed"}
@@ -131,11 +133,12 @@ Content(p) == IF IsStdin(p) THEN StdinContent ELSE FileOf(p).content
 \* C14: -f, then the extension, then detection
 Sel(p) == IF from # "none" THEN from ELSE IF ~IsStdin(p) /\ FileOf(p).ext # "none" THEN FileOf(p).ext ELSE "detect"
 Openable(p) == IsStdin(p) \/ FileOf(p).exists
-LibRes(p) == Lib[<<Content(p), Sel(p), to>>]
+Supply(p) == IF p = "-" \/ p \in ReaderFiles THEN "reader" ELSE "slice"
+LibRes(p) == Lib[<<Content(p), Sel(p), to, Supply(p)>>]
 FramesOf(n, k) == [j \in 1..k |-> <<n, j>>]
 
 \* the TOML output has been used: an input holding a document was translated
-TomlUsed == \E k \in 1..Len(done) : ~Lib[<<Content(done[k].path), done[k].sel, to>>].nodoc
+TomlUsed == \E k \in 1..Len(done) : ~Lib[<<Content(done[k].path), done[k].sel, to, Supply(done[k].path)>>].nodoc
 
 Bail(err, which) ==      \* xt_bail! / xt_bail_path!: message, process::exit(1) -- the BufWriter is NOT flushed
   Finish(1, "none", err, which) /\ UNCHANGED <<argv, stdoutKind, i, raw, from, to, paths, cur, stdinUsed, buffered, fd, done, okWrites, budget>>
@@ -198,9 +201,9 @@ Spec == Init /\ [][Next]_vars
 -----------------------------------------------------------------------------
 IsPrefix(s, t) == Len(s) <= Len(t) /\ s = SubSeq(t, 1, Len(s))
 RECURSIVE AllFrames(_, _)
-AllFrames(k, n) == IF k > n THEN <<>> ELSE FramesOf(k, Lib[<<Content(paths[k]), Sel(paths[k]), to>>].frames) \o AllFrames(k + 1, n)
+AllFrames(k, n) == IF k > n THEN <<>> ELSE FramesOf(k, Lib[<<Content(paths[k]), Sel(paths[k]), to, Supply(paths[k])>>].frames) \o AllFrames(k + 1, n)
 \* C08 seen from the command line
-TomlOnce == to = "toml" => Len(SelectSeq(done, LAMBDA d : ~Lib[<<Content(d.path), d.sel, to>>].nodoc)) <= 1
+TomlOnce == to = "toml" => Len(SelectSeq(done, LAMBDA d : ~Lib[<<Content(d.path), d.sel, to, Supply(d.path)>>].nodoc)) <= 1
 
 \* C13
 ExitZero == exit = 0 => (outText # "none" \/ (Len(done) = Len(paths) /\ phase = "exited"))
